@@ -258,3 +258,93 @@ Fixpoint queue_window_update (cap : nat) (q : list (Z * Z)) (s inc : Z) : list (
     if k =? s then (k, Z.min (Z.min (v + inc) U32_MAX) I32_MAX) :: r
     else (k, v) :: queue_window_update (pred cap) r s inc
   end.
+
+(* ------------------------------------------------------------------ *)
+(** * Receiver side: what [handle_data_frame] credits back
+
+    [wire] is the whole DATA frame payload (pad-length byte and padding
+    included: RFC 9113 6.1 / 6.9.1 count it against both windows).  The
+    connection-level credit accumulates in [received_bytes_since_update] and is
+    queued as one WINDOW_UPDATE once it reaches the threshold (half of the
+    configured connection window); the stream-level credit is queued for every
+    frame that does not end the stream. *)
+Definition on_data_credit (acc thr wire : Z) (end_stream : bool) : Z * option Z * option Z :=
+  let acc1 := acc + wire in
+  let '(acc2, cwu) := if thr <=? acc1 then (0, Some acc1) else (acc1, None) in
+  (acc2, cwu, if end_stream then None else Some wire).
+
+(* ------------------------------------------------------------------ *)
+(** * Toward a backend: which attached streams are on the wire
+
+    [start_stream] attaches a stream (it gets its id) while fewer than the
+    known limit are attached; [write_streams] puts an attached stream on the
+    wire (HEADERS) only while fewer than the peer's MAX_CONCURRENT_STREAMS are
+    open there, lowest id first. *)
+Record wire := mkwire { w_limit : Z; w_opened : list Z; w_waiting : list Z }.
+
+Inductive wev :=
+| WAttach (sid : Z)          (* start_stream accepted *)
+| WSettingsMCS (v : Z)       (* the backend's SETTINGS *)
+| WPass                      (* one write_streams pass *)
+| WEnd (sid : Z).            (* the stream ended (both sides done, or reset) *)
+
+Fixpoint open_waiting (limit : Z) (opened waiting : list Z) : list Z * list Z :=
+  match waiting with
+  | [] => (opened, [])
+  | s :: r =>
+    if Z.of_nat (length opened) <? limit then open_waiting limit (opened ++ [s]) r
+    else (opened, waiting)
+  end.
+
+Definition wire_step (w : wire) (e : wev) : wire :=
+  match e with
+  | WAttach sid =>
+    if w_limit w <=? Z.of_nat (length (w_opened w) + length (w_waiting w)) then w
+    else mkwire (w_limit w) (w_opened w) (w_waiting w ++ [sid])
+  | WSettingsMCS v => mkwire v (w_opened w) (w_waiting w)
+  | WPass => let '(o, wt) := open_waiting (w_limit w) (w_opened w) (w_waiting w) in mkwire (w_limit w) o wt
+  | WEnd sid =>
+    mkwire (w_limit w) (filter (fun x => negb (x =? sid)) (w_opened w)) (filter (fun x => negb (x =? sid)) (w_waiting w))
+  end.
+
+(* ------------------------------------------------------------------ *)
+(** * The ready loop's "is there still work" test ([Mux::ready])
+
+    Per connection: the readiness bits that are both signalled and of interest
+    (READABLE, WRITABLE, HUP/ERROR), and whether it is a backend that hung up
+    but is kept because its stream buffers still hold undelivered bytes.
+    [skip_dead_hup] = the test since fix d86ed70 ([true]): HUP/ERROR of such a
+    kept backend is not work. *)
+Record cready := mkcr { cr_r : bool; cr_w : bool; cr_hup : bool; cr_dead_kept : bool }.
+
+Definition conn_has_work (skip_dead_hup : bool) (c : cready) : bool :=
+  cr_r c || cr_w c || (cr_hup c && negb (skip_dead_hup && cr_dead_kept c)).
+
+Definition loop_continues (skip_dead_hup : bool) (front : cready) (backends : list cready) : bool :=
+  conn_has_work skip_dead_hup front || existsb (conn_has_work skip_dead_hup) backends.
+
+(* ------------------------------------------------------------------ *)
+(** * Reading DATA into per-stream buffers (the `proxy-wedged` finding)
+
+    One connection reads frames in wire order.  A DATA frame for a stream
+    whose buffer has no room parks the WHOLE connection ([interest.remove
+    (READABLE)]): nothing behind it (other streams' DATA, WINDOW_UPDATE) is
+    read until the other connection drains that buffer. *)
+Inductive wframe := FData (stream : nat) (len : Z) | FWindowUpdate (inc : Z).
+
+Record rconn := mkrc {
+  rc_incoming : list wframe;        (* bytes the kernel holds for us, in wire order *)
+  rc_free : list Z;                 (* free space of the buffer of each stream we read into *)
+  rc_send_window : Z }.             (* our send window toward this peer (connection level) *)
+
+(** one read attempt: None = parked (no progress possible on this connection) *)
+Definition read_one (c : rconn) : option rconn :=
+  match rc_incoming c with
+  | [] => None
+  | FWindowUpdate inc :: r => Some (mkrc r (rc_free c) (rc_send_window c + inc))
+  | FData s len :: r =>
+    if len <=? nth s (rc_free c) 0
+    then Some (mkrc r (map (fun p => if (fst p =? s)%nat then snd p - len else snd p)
+                           (combine (seq 0 (length (rc_free c))) (rc_free c))) (rc_send_window c))
+    else None
+  end.
